@@ -371,7 +371,7 @@ def main():
   # 1. every history of the tiny model (all mutators incl. paste ops, conditions, cycles, queries)
   kw = dict(MaxNodes=2, MaxVars=2, MaxBindings=2, MaxData=2, MaxOrigins=3, MaxSS=1,
             UseCond="TRUE", AllowCycles="TRUE", PasteOps="TRUE", FreshData="FALSE",
-            MaxOps=8 if thorough else 7, MaxQueries=2, ExportMode='"hist"')
+            MaxOps=7, MaxQueries=2, ExportMode='"hist"')   # MaxOps=8 needs > 35 GB in the driver
   r = tlc.run("Typegraph", T(INVARIANTS=["TypeOK", "ExportInv"], **kw), workers=1, timeout=3000,
               heap="12g")
   hists = [c["h"] for c in r.cases if any(o["op"] == "Query" for o in c["h"])]
@@ -386,7 +386,7 @@ def main():
   # 1b. every transition of the state graph: build(g), warm the caches, op, ask everything
   tkw = dict(MaxNodes=2, MaxVars=2, MaxBindings=3, MaxData=2, MaxOrigins=3, MaxSS=1,
              UseCond="TRUE", AllowCycles="TRUE", PasteOps="TRUE", FreshData="FALSE",
-             MaxOps=7 if thorough else 5, MaxQueries=0, ExportMode='"trans"', VIEW="GraphView")
+             MaxOps=6 if thorough else 5, MaxQueries=0, ExportMode='"trans"', VIEW="GraphView")
   r = tlc.run("Typegraph", T(INVARIANTS=["TypeOK"], **tkw) + "ACTION_CONSTRAINT ExportTrans\n",
               workers=1, timeout=3000, heap="12g")
   th = []
